@@ -142,6 +142,15 @@ func runScenario(c *fw.Ctx, sc scenario) *scenarioOut {
 	e.w.Mode = sc.mode
 	m := sc.model(e)
 	res := e.run(m)
+	if sc.v.Proto == "sack" && e.noiseSynAckOnConnection() {
+		// a noise SYN-ACK built for "some other connection" landed on this one: its random destination port (or a mutated
+		// byte) equals the local port the kernel chose after the frame was built. What the tool then takes from it -
+		// sequence numbers, timestamps, whether SACK is permitted - is the handshake it was shown; the run says nothing
+		// about the case's subject and is not judged.
+		c.Count("handshake_port_coincidence", 1)
+		e.close()
+		return nil
+	}
 	f, js := e.judge(res, sc.tag)
 	e.checkCompleteness(res, f, js, sc.tag)
 	e.checkUniversal(res, f, js, sc.tag)
